@@ -112,8 +112,10 @@ type Gate struct {
 	stopped  bool
 
 	// Findings noted by Quiesce.
-	ConnLeaks  []string
-	HTTPStalls []string
+	ConnLeaks []string
+	// DeadConnReqs: requests seen at the bus whose cid was not registered any more
+	DeadConnReqs []string
+	HTTPStalls   []string
 
 	Watchdog time.Duration
 }
@@ -140,6 +142,18 @@ func NewGate(o GateOpts) (*Gate, error) {
 	g := &Gate{Svc: svc, Bus: bus, Clock: clock, Log: l, Opts: o, Watchdog: 30 * time.Second}
 	svc.VerifCache().VerifSetUnsubscribeDelay(o.UnsubDelay)
 	svc.SetOnWSClose(func(*websocket.Conn) { g.wsClosed.Add(1) })
+	// C11: a request made on behalf of a connection that is no longer
+	// registered (dispose removes it last) is work for a released connection
+	bus.OnRequestGate = func(r *BusReq) {
+		if r.CID == "" || svc.VerifHasConn(r.CID) {
+			return
+		}
+		g.mu.Lock()
+		if len(g.DeadConnReqs) < 50 {
+			g.DeadConnReqs = append(g.DeadConnReqs, fmt.Sprintf("request %s (t=%d) carries cid %s of a connection that is no longer registered", r.Subject, r.T, r.CID))
+		}
+		g.mu.Unlock()
+	}
 	if err := svc.Start(); err != nil {
 		return nil, err
 	}
